@@ -411,7 +411,9 @@ func init() {
 			n := len(c.K)
 			bes := newBackends(n)
 			defer closeBackends(bes)
-			sys, err := startSys(baseConfig("least_connections", bes), bes, false)
+			lcCfg := baseConfig("least_connections", bes)
+			lcCfg.Server.Timeouts.Write = 3600 // requests are held open for up to 18 s: longer than the default write timeout, after which Helios gives a request up
+			sys, err := startSys(lcCfg, bes, false)
 			if err != nil {
 				o.Inconcl("startSys: %v", err)
 				return
